@@ -23,6 +23,8 @@ def levels(tier):
              "links_batch": 1, "batch_targets": 1, "pages_batch": 2},
             {"name": "long-n2", "pools": LONG[:3], "sparse": True, "n": 2, "alphabet": ["page", "links", "batch"],
              "links_batch": 1, "batch_targets": 1},
+            {"name": "recrawl3", "shapes": [[1, 2, 2]], "L": 1, "n": 1, "prelude": [["page", 0, True]], "alphabet": ["batch"],
+             "batch_sources": 3, "batch_targets": 1, "yield_frequencies": [50, 1]},
         ]
     return [
         {"name": "n1-full", "shapes": [[1, 2, 2], [2, 2, 3]], "L": 1, "n": 1, "alphabet": full},
@@ -33,6 +35,8 @@ def levels(tier):
          "links_batch": 1, "batch_targets": 1},
         {"name": "long-n2", "pools": LONG, "sparse": True, "n": 2, "alphabet": full, "links_batch": 2, "batch_targets": 2},
         {"name": "long-n3", "pools": LONG[:3], "sparse": True, "n": 3, "alphabet": ["page", "links"], "links_batch": 1},
+        {"name": "recrawl3", "shapes": [[1, 2, 2], [1, 2, 3]], "L": 1, "n": 1, "prelude": [["page", 0, True]], "alphabet": ["batch", "links"],
+         "batch_sources": 3, "batch_targets": 2, "links_batch": 3, "yield_frequencies": [50, 1, 2]},
         {"name": "n3-full", "shapes": [[1, 2, 2]], "L": 1, "n": 3, "alphabet": full,
          "links_batch": 1, "batch_targets": 1},
     ]
@@ -72,6 +76,7 @@ def harness(E):
     t = E.Traph(folder=None, default_webentity_creation_rule=NEVER, webentity_creation_rules={})
     ref = Ref()
     h = History(E, t, ref, pool, P["alphabet"], P)
+    h.prelude(P.get("prelude"))
     for i in range(P["n"]):
         kind, info = h.step(i)
         rep = info.get("report")
